@@ -69,7 +69,7 @@ func checkStep(c StepCase) (v ev.Verdict) {
 		return
 	}
 	got := sm.Observe(stride, serr, pending)
-	allowed := sm.RefStepTok(c.Spec, c.Node, c.Bs, pendingOrNil(c), sm.TokenFrom(stride))
+	allowed := sm.RefStepTok(c.Spec, c.Node, c.Bs, pendingOrNil(c), sm.TokenFrom(stride), sm.ErrorTextFrom(stride))
 	ok, keys := sm.Allowed(got, allowed)
 	if !ok {
 		v.Failf("step at %q gave %s; the documented rule allows %s", c.Node, got.Key(), strings.Join(keys, " || "))
